@@ -89,6 +89,13 @@ CLAIMED = {
             'Tie: bit-exact correspondence of plain trajectories with head/tail/cross winds.',
             'hand Lean model + loop invariant for arbitrary state sequences, bit-exact differential run, row-count oracle incl. tail winds',
             '5 C03'),
+    'C18': ('Theorems: configuration = override-else-default over the regenerated constants; induction over any history of set/reset/create: a '
+            'calculator keeps the global step in force at its creation; non-positive step rejected; air-relative advance per step <= max step; and over '
+            'the REGENERATED enumeration/alias tables, kernel-evaluated: every name and alias resolves to its unit (radian included), resolution is '
+            'case-blind for all strings, a name never resolves to an unrelated unit, set() stores exactly the parsed unit. Tie: exhaustive exact '
+            'correspondence of the parsers and configuration histories.',
+            'regenerated tables + decide +kernel, induction over histories, exhaustive differential run of parsers, behavioural search',
+            '5 C18'),
     'C11': ('Theorems over the loop model: state/wind-sock/by-products after an iteration are those of the physical step alone (any flags, steps, '
             'filter state); by induction a completed run ends on the shot\'s physical state sequence, only the prefix length depends on the request; '
             'distance-trigger rows are the interpolant of two consecutive states; plain vs extra and with/without time step one-step simulations. '
